@@ -50,7 +50,9 @@ def _serial(moment, date1904=False, fraction=0.0):
 def draw_cell(rng):
     kind = rng.choice(["s", "s", "ss", "n-int", "n-float", "b", "d", "t", "date", "gap"])
     if kind == "s" or kind == "ss":
-        return [kind, rng.choice(["a", "text", "1.0", "007", " x ", "ü", "TRUE", "2020-01-01", "=1+1", "release 2.0"])]
+        return [kind, rng.choice(["a", "text", "1.0", "007", " x ", "ü", "TRUE", "2020-01-01", "=1+1", "release 2.0",
+                                  # text that is no NFC / looks like an OOXML character escape: a string is returned verbatim
+                                  "e\u0301", "\u212b", "col_x0041_name", "_x005F_"])]
     if kind == "n-int":
         value = rng.choice([0, 1, -1, 7, 42, 1000, 2 ** 31, 2 ** 53, -(2 ** 53), 10 ** 15, rng.randrange(-10 ** 9, 10 ** 9),
                             rng.randrange(2 ** 52, 2 ** 53)])
